@@ -560,7 +560,7 @@ def _ignored_prefixes() -> tuple:
     return tuple(x.rstrip('/') + '/' for x in {sys.prefix, sys.base_prefix, os.path.dirname(os.__file__), str(REPO), str(VERIF)})
 
 
-def run_op(base: str, root_spec: str, chain_prefix, op: str, path_t: str) -> dict:
+def run_op(base: str, root_spec: str, chain_prefix, op: str, path_t: str, cold: bool = True) -> dict:
     """Run one operation on a fresh filesystem object; returns outcome, data and the observed accesses.
 
     handle_loose: a File produced by an UNconstrained RawFileSystem on the same folder (its lookup is not observed, it
@@ -590,18 +590,21 @@ def run_op(base: str, root_spec: str, chain_prefix, op: str, path_t: str) -> dic
         elif op == 'after_loose':
             # history: an UNconstrained filesystem on the same folder (same chain prefix) performs every plain operation
             # with this name first (not observed: it is exempt); then a NEW constrained one is asked the same.
-            # Before that the constrained one is asked "cold": an escape that needs no history is not a history matter.
-            with observe() as ev0:
-                cold_data: list[str] = []
-                for sub in SUB_OPS:
-                    try:
-                        _sub_op(fs, sub, path, cold_data, 60)
-                    except (OSError, ValueError, UnicodeError):
-                        pass
-            cold = [os.path.normpath(os.path.join(base, p)) for _, p in ev0] + \
-                [os.path.join(base, d.strip()[len('CONTENT-OF:'):]) for d in cold_data if d.startswith('CONTENT-OF:')]
-            cold_escape = any(not is_inside(root, p) and not p.startswith(_ignored_prefixes()) for p in cold)
-            fs, raw = make_fs(base, root_spec, chain_prefix)
+            # Before that (cold=True; the targeted part of the search has run the plain operations on the same name already
+            # and passes what they found instead) the constrained one is asked "cold": an escape that needs no history is
+            # not a history matter.
+            if cold:
+                with observe() as ev0:
+                    cold_data: list[str] = []
+                    for sub in SUB_OPS:
+                        try:
+                            _sub_op(fs, sub, path, cold_data, 60)
+                        except (OSError, ValueError, UnicodeError):
+                            pass
+                seen0 = [os.path.normpath(os.path.join(base, p)) for _, p in ev0] + \
+                    [os.path.join(base, d.strip()[len('CONTENT-OF:'):]) for d in cold_data if d.startswith('CONTENT-OF:')]
+                cold_escape = any(not is_inside(root, p) and not p.startswith(_ignored_prefixes()) for p in seen0)
+                fs, raw = make_fs(base, root_spec, chain_prefix)
             loose, _ = make_fs(base, root_spec, chain_prefix, constrain=False)
             for sub in SUB_OPS:
                 try:
@@ -635,6 +638,8 @@ def run_op(base: str, root_spec: str, chain_prefix, op: str, path_t: str) -> dic
                     n = rejected = 0
                     for f in fs.walk_folder(path):
                         n += 1
+                        if n > 400:       # the tree has a few dozen files: a walk this long has left it (and may never end)
+                            break
                         if n <= 60:
                             try:      # a yielded handle may itself be refused (literal backslash names); keep walking
                                 with f.open_bin() as fh:
@@ -743,9 +748,13 @@ def search_trees(ck: Ck) -> None:
 
     op_seconds: dict[str, float] = {}
 
-    def case(label, root_spec, cp, op, path_t, segs=None):
+    plain_escaped: set = set()       # (root configuration, chain prefix, path) on which a plain operation escaped
+
+    def case(label, root_spec, cp, op, path_t, cold=True):
         t0 = time.perf_counter()
-        r = run_op(base, root_spec, cp, op, path_t)
+        r = run_op(base, root_spec, cp, op, path_t, cold=cold)
+        if op == 'after_loose' and not cold:
+            r['cold_escape'] = (label, cp, path_t) in plain_escaped
         op_seconds[op] = op_seconds.get(op, 0.0) + time.perf_counter() - t0
         ck.count('tree_operations')
         ck.hist('tree_op', op)
@@ -758,6 +767,8 @@ def search_trees(ck: Ck) -> None:
             ck.seen((label, cp, op, path_t))
         if not r['escapes'] and not r['leaked'] and not r['answered_outside']:
             return False
+        if op in SUB_OPS:
+            plain_escaped.add((label, cp, path_t))
         where = r['escapes'][0][1] if r['escapes'] else r['answered_outside'][0][1] if not r['leaked'] \
             else os.path.join(base, r['leaked'][0][len('CONTENT-OF:'):])
         key = ('handle-' if op.startswith('handle_') else 'history-' if op == 'after_loose' and not r['cold_escape'] else '') + 'escape-' \
@@ -783,10 +794,14 @@ def search_trees(ck: Ck) -> None:
         for cp in CHAIN_PREFIXES:
             if cp is not None and label not in ('abs', 'relative', 'nested'):
                 continue
-            for path_t in tp:
+            for k, path_t in enumerate(tp):
                 ops = OPS if cp is None or label == 'abs' else ['getitem', 'walk', 'handle_made', 'after_loose']
                 for op in ops:
-                    case(label, root_spec, cp, op, path_t)
+                    # the history op costs ten operations: in the quick tier on the corpus and every second spelling; the
+                    # plain operations on the same name come first in `ops` and say whether an escape needs the history
+                    if op == 'after_loose' and not (ck.thorough or ck.tie_broken or k < 12 or k % 2 == 0):
+                        continue
+                    case(label, root_spec, cp, op, path_t, cold=False)
     # 2. random segment paths
     rng = ck.rng
     for _ in range(n_random):
